@@ -11,6 +11,7 @@ func init() {
 		lean:    []string{"JSight.Props.C10"},
 		exes:    []string{},
 		run:     runC10,
+		assume:  []string{"the registry theorems are name-level; content of entries under permutation is decided by search", "the schema library is invariant under the order in which types and rules are handed to it (observed)"},
 		rule:    "generated documents (reference chains between types, enums used inside referenced types, allOf chains of depth >= 2, tags used before definition) x permutations of their top-level blocks (all permutations for <= 5 blocks in the thorough tier, sampled otherwise); non-trivial = accepted document with >= 3 blocks whose permutation differs from the original order; distinct = distinct (document, permutation)",
 		trusted: []string{"the harness-side renderer; catalog equality is judged on the full JSON with every ordered collection compared as a set of entries"},
 	}
@@ -18,6 +19,7 @@ func init() {
 		lean:    []string{"JSight.Props.C20"},
 		exes:    []string{},
 		run:     runC20,
+		assume:  []string{"the registry theorems are name-level; that no OTHER entry changes its content is decided by search", "the schema library answers for existing bodies do not change when an unreferenced type or enum is added (observed)"},
 		rule:    "generated accepted documents x one fresh declaration of each kind (type, enum, server, tag, path-bearing method on an unrelated path, JSON-RPC URL) x every insertion point between top-level blocks, and every unreferenced declaration deleted; non-trivial = accepted base document with >= 2 blocks; distinct = distinct (document, change)",
 		trusted: []string{"the harness-side renderer"},
 	}
